@@ -275,10 +275,8 @@ def native_search(xm, ym, flip, nmax=5):
         return {"selection_rate": Fr(tp + fp, n), "false_positive_rate": Fr(fp, tn + fp), "false_negative_rate": Fr(fn, tp + fn),
                 "true_positive_rate": Fr(tp, tp + fn), "true_negative_rate": Fr(tn, tn + fp), "accuracy_score": Fr(tp + tn, n),
                 "balanced_accuracy_score": (Fr(tp, tp + fn) + Fr(tn, tn + fp)) / 2}[name]
-    for n in range(1, nmax + 1):
-        for scores in itertools.product((0.0, 1.0, 2.0), repeat=n):
-            if list(scores) != sorted(scores):
-                continue
+    for n in range(1, min(nmax, 4) + 1):
+        for scores in itertools.combinations_with_replacement((0.0, 1.0, 1.0000000005, 1.0000000012, 2.0), n):     # incl. a chain of near ties (relative gaps 5e-10 and 7e-10)
             for labels in itertools.product((0, 1), repeat=n):
                 df = pd.DataFrame({"score": list(scores), "label": list(labels)})
                 degenerate = sum(labels) in (0, n)
